@@ -125,3 +125,48 @@ func VH_C05_interference() {
 		rt.Cover("increment")
 	}
 }
+
+// VH_C06_torn: the process dies inside a clock update, possibly with a torn write (only a
+// prefix of the new decimal value reaches the file). After the restart the clock file is
+// either reported missing/unusable (the clock loaders rebuild it from the stored entities)
+// or holds a value that is not lower than the value before the interrupted update — which
+// is what reachable commits may hold.
+func VH_C06_torn() {
+	fs := vfs.New()
+	const p = "clocks/bugs-edit"
+	pc, err := NewPersistedClock(fs, p)
+	rt.Assert(err == nil, "new-no-error")
+	olds := []uint64{1, 9, 12, 99, 123456, 999999}
+	old := olds[rt.Choose(len(olds))]
+	rt.Assert(pc.Witness(Time(old)) == nil, "seed-witness")
+	news := []uint64{0, 13, 100, 1000000, 18446744073709551000}
+	nv := news[rt.Choose(len(news))]
+	k := rt.Choose(rt.Param("K", 3))
+	torn := rt.Choose(rt.Param("T", 4)) // 0 = the write is lost entirely
+	fs.CrashAfter = fs.Mutations + k
+	fs.Torn = torn
+	crashed, _ := rt.Try(func() {
+		if nv == 0 {
+			_, _ = pc.Increment()
+		} else {
+			_ = pc.Witness(Time(nv))
+		}
+	})
+	fs.CrashAfter = -1
+	fs.Torn = 0
+	if !crashed {
+		rt.Cover("not-crashed")
+	}
+	re, err := LoadPersistedClock(fs, p)
+	if err != nil {
+		rt.Assert(err == ErrClockNotExist, "unusable-clock-file-reported-missing")
+		rt.Cover("reported-missing")
+		return
+	}
+	now := uint64(re.Time())
+	if torn > 0 && crashed {
+		rt.Cover("torn-write")
+	}
+	rt.Assert(now >= old, "torn-clock-file-never-lowers-the-clock")
+	rt.Observe("now", now)
+}
